@@ -60,7 +60,10 @@ let run_history use_spec ops =
   end else begin
     let st = ref m_init in
     List.map (fun o -> let (s', x) = m_step o !st in st := s';
-                       let r = show_out x in if m_wf s' then r else r ^ "!WF") ops
+                       let r = show_out x in
+                       (* older generations cannot change: check the invariants of the current one *)
+                       let ok = match s' with g :: _ -> m_wf [g] | [] -> true in
+                       if ok then r else r ^ "!WF") ops
   end
 
 let run_prefix ops =
